@@ -16,7 +16,6 @@ def run(c):
     c.outside += [
         'byte-level tokenisation (quick-xml itself), encodings other than UTF-8, DTDs',
         'XInclude (reads files through std::fs; the included text then takes the same path as the harness documents)',
-        'CDATA sections as element text (kept verbatim with their markers by read_content; not among the lexical variations the property lists)',
         'documents larger than the catalogue shapes; nestings of executable content deeper than if-chains with up to 3 elseif inside onentry',
     ]
     ALL = (401, 402, 403, 404, 405, 406, 407, 408, 409, 410)
@@ -29,7 +28,7 @@ def run(c):
         c.run_m('h_c04_struct2', expect_checks=ALL, expect_cover=(401,), diff_samples=6, bounds={'shapes': 13, 'transition': 'every conformant (source, <=2 targets, type)'})
         c.run_m('h_c04_lex_all', expect_checks=ALL, expect_cover=(401,), diff_samples=6, bounds={'shapes': 13, 'lexical product': 360, 'symbolic characters': 2})
     c.run_m('h_c04_content', expect_checks=(420, 421, 422, 423), expect_cover=(420,), diff_samples=6,
-            bounds={'elseif branches': '0..3', 'else': 'with/without', 'elements per branch': '1..2', 'foreach after the if': 'with/without'})
+            bounds={'elseif branches': '0..3', 'else': 'with/without', 'elements per branch': '1..2', 'foreach after the if': 'with/without', '<log> without expr before the if': 'with/without'})
     c.run_m('h_c04_descr', expect_checks=(430,), expect_cover=(430,), diff_samples=6, bounds={'spellings': "e, e., e.*, e.*., padded list, *"})
     c.run_m('h_c04_elems', expect_checks=(440, 441, 442, 443, 444, 445, 446, 447, 448, 449, 450, 451), expect_cover=(440,), diff_samples=8,
-            bounds={'prefix': 2, 'quotes': 2, 'comments': 2, 'payload': 'params / content expr / content text', 'data form': 'expr / text / empty', 'send form': 'literal / expr', 'autoforward': 2})
+            bounds={'prefix': 2, 'quotes': 2, 'comments': 2, 'payload': 'params / content expr / content text', 'data form': 'expr / text / empty / text+comment / CDATA', 'send form': 'literal / expr', 'autoforward': 2})
